@@ -1058,3 +1058,39 @@ from contracts import spec_source as _ss; _ss.register_c02()  # noqa: provenance
 from contracts.shared import reregister as _rr_c02
 from contracts import c11 as _c11_c02
 _rr_c02('C02', 'C11', 'C11.guards_above_noise_floor.phi_over_y', 'C02.callee.guards_above_noise_floor.phi_over_y')
+
+def _only_var(t, name):
+    """every uninterpreted constant of the term is the variable `name` (named constants c_* allowed)"""
+    seen = set()
+    def walk(e):
+        if z3.is_const(e) and e.decl().kind() == z3.Z3_OP_UNINTERPRETED:
+            seen.add(str(e))
+        for ch in e.children():
+            walk(ch)
+    walk(t)
+    return all(v == name or v.startswith('c_') for v in seen)
+
+@obligation('C02.equal_arguments.FCWl.expansion', fns=[(FF, 'FCWl')], replay=replay_multi([('FCWl', 2)]))
+def _(ctx):
+    """ensures: every path of FCWl(x, x) that is not the documented closed form itself (a large-argument expansion) lies within 1e-7 of the documented limit
+    FCWl[x,x] of math/ffunctions.m on its whole window -- enclosure of Li2(1-1/x) by reflection and power series (A-SPECFN), ln x as a free variable"""
+    from contracts.c01_fps import prove_path_against_def
+    from gm2v import specs as _sp
+    s0 = z3.Real('s0')
+    PI = z3.Real('c_PI')
+    def fcl(it, a, t):
+        z = z3real(a[0])
+        return z * (z + z * (z - 1) * (_sp.Li2(1 - 1 / z) - PI * PI / 6) + (z - Fr(1, 2)) * _sp.ln(z))
+    stubs = dict(ATOMS)
+    stubs['sort'] = sorted_stub()
+    stubs['f_CSl'] = fcl
+    stubs['dilog'] = lambda it, a, t: _sp.Li2(z3.simplify(z3real(a[0])))
+    it, ps = run(ctx, 'FCWl', z3.Reals('x y'), [], stubs, feasibility=True)
+    doc = (-3 * s0 + 12 * s0**2 + PI * PI * s0**2 - 2 * PI * PI * s0**3 + 12 * s0**2 * _sp.ln(s0) - 6 * s0**2 * _sp.Li2(1 - 1 / s0) + 12 * s0**3 * _sp.Li2(1 - 1 / s0)) / 6
+    n = 0
+    for k, (s, r, e) in enumerate(ps):
+        if e is not None or not isinstance(r, z3.ExprRef) or 's1' in str(r) or _is0(r):
+            continue                      # the generic path (depends on both arguments) and the zero path have their own contracts
+        n += 1
+        prove_path_against_def(ctx, 'path%d' % k, 'FCWl', s0, [c for c in s.pc if _only_var(c, 's0')], list(s.axioms), r, doc, [s0 > 0, s0 <= 10**12])
+    ctx.record('paths', PROVED if n else ERROR, 'B', 0, '%d equal-argument path(s) compared with the documented limit' % n)
